@@ -243,12 +243,12 @@ PROPS["C18"] = {
             "product of its declared parameter types (extreme ints, NaN / +-inf / +-0 / subnormals, 36 strings incl. empty, multi-byte, NUL, numeric look-alikes, 14 byte arrays incl. non-byte values and ill-formed UTF-8, iterators that end immediately or never) plus random values, "
             "called through create_call and - when the arguments are printable - as SimpleSL text (results must agree). Oracle: no panic, no runtime error, the result belongs to the declared result type (contents and tag), constants belong to their declared types; "
             "independent expectations for len, bit counts, byte/bit reversal, integer logs, float classification, to_bits/from_bits, to_float/to_int, parse_int, split / replace / contains / starts_with / ends_with / chars / bytes / str_from_utf8 / str_from_utf8_lossy / trim* / to_lowercase / to_uppercase (the host language's Unicode-aware equivalents), parse_float, to_string. Float rounding and transcendental functions are compared with the host's f64 methods as a note in the evidence only (counter advisory-float-math-doc-mismatch), because the property requires only their signature. "
-            "54 file-system scenarios in a scratch directory (missing path, directory-instead-of-file, file-instead-of-directory component, non-empty directory, existing target, name too long, embedded NUL, /proc) with required success / struct{error_code, msg}, the observable effect of a success, and the whole scratch tree unchanged by a call that reports failure; "
+            "57 file-system scenarios in a scratch directory (missing path, directory-instead-of-file, file-instead-of-directory component, non-empty directory, existing target, name too long, embedded NUL, /proc) with required success / struct{error_code, msg}, the observable effect of a success, and the whole scratch tree unchanged by a call that reports failure; "
             "7 stdin states for cgetline in child processes (empty, one line, no newline, CRLF, Unicode, invalid UTF-8, NUL). distinct_nontrivial = distinct calls (function + argument values).",
     "assumptions": COMMON_ASSUME + ["runs as root: permission bits cannot make a path unwritable, so 'unwritable' is exercised through /proc and file-instead-of-directory components only",
                                     "float rounding / transcendental functions are judged only for signature and absence of panics; value differences from the host's f64 methods are notes, not verdicts"],
-    "floors": {"quick": {"calls": 3750, "calls-with-independent-expectation": 1500, "shape:functions_called": 85, "fs-fault-states": 54, "cgetline-stdin-states": 7, "constants-judged": 4, "text-route-calls": 750},
-               "thorough": {"calls": 7500, "calls-with-independent-expectation": 3000, "shape:functions_called": 85, "fs-fault-states": 54, "cgetline-stdin-states": 7, "constants-judged": 4, "text-route-calls": 1500}},
+    "floors": {"quick": {"calls": 3750, "calls-with-independent-expectation": 1500, "shape:functions_called": 85, "fs-fault-states": 57, "cgetline-stdin-states": 7, "constants-judged": 4, "text-route-calls": 750},
+               "thorough": {"calls": 7500, "calls-with-independent-expectation": 3000, "shape:functions_called": 85, "fs-fault-states": 57, "cgetline-stdin-states": 7, "constants-judged": 4, "text-route-calls": 1500}},
     "level": "fault_enumeration",
     "technique": "runtime signature monitor over run-time discovered std functions with boundary/random arguments, independent reference results, enumerated file-system and stdin fault states",
     "level_text": "Every exported function is called with the boundary product of its declared parameter types and random values; results are checked against the declared type and, for the documented pure helpers, an independent implementation; file-system and stdin fault states are enumerated explicitly.",
